@@ -410,6 +410,8 @@ static int do_next(cron_expr* expr, struct tm* calendar, unsigned int dot) {
     unsigned int day_of_week = 0;
     unsigned int day_of_month = 0;
     unsigned int update_day_of_month = 0;
+    int month_of_day = 0;
+    int year_of_day = 0;
     unsigned int month = 0;
     unsigned int update_month = 0;
 
@@ -451,9 +453,13 @@ static int do_next(cron_expr* expr, struct tm* calendar, unsigned int dot) {
 
     day_of_week = calendar->tm_wday;
     day_of_month = calendar->tm_mday;
+    month_of_day = calendar->tm_mon;
+    year_of_day = calendar->tm_year;
     update_day_of_month = find_next_day(calendar, expr->days_of_month, day_of_month, expr->days_of_week, day_of_week, resets, &res);
     if (0 != res) goto return_result;
-    if (day_of_month == update_day_of_month) {
+    /* the day is unchanged only if month and year are unchanged as well: the search may end on the
+     * same day of month of a later month, and then the time of day has to be searched again */
+    if (day_of_month == update_day_of_month && month_of_day == calendar->tm_mon && year_of_day == calendar->tm_year) {
         push_to_fields_arr(resets, CRON_CF_DAY_OF_MONTH);
     } else {
         res = do_next(expr, calendar, dot);
